@@ -3,7 +3,11 @@
    entry point (direct extractor | read_file | cli.main).
 
    hdr : [ c |-> the abstract container (JSON: `names` as an array),
-           entry |-> "direct" | "read_file" | "cli" ]
+           entry |-> "direct" | "read_file" | "cli",
+           pos |-> where the read position of the stream handed to the direct extractor stood (Positions;
+                   "start" for read_file / cli, which open the file themselves),
+           mode |-> "fresh" | "after-detector" (the kind's detector function ran first on the same stream: its
+                   verdict is the first Detect event, the extractor's own detector call the second) ]
    ev  : optional  [a |-> "Fixture", named |-> BOOLEAN]   a repository fixture; named = its file name says
                                                            password / protected / encrypted
          optional  [a |-> "Detect", v |-> BOOLEAN]        the detector function of this kind returned v
@@ -74,6 +78,8 @@ TraceEnd ==
     /\ UNCHANGED <<det, yielded, err>>
 
 TraceInit == /\ tid \in 1..Len(Traces) /\ l = 1 /\ det = "none"
+             /\ Traces[tid].hdr.pos \in Positions /\ Traces[tid].hdr.mode \in CallModes
+             /\ Traces[tid].hdr.entry \in {"direct", "read_file", "cli"}
              /\ c = FromJson(Traces[tid].hdr.c)
              /\ pc = "open" /\ k = 1 /\ yielded = 0 /\ err = "none"
 
